@@ -12,6 +12,7 @@ import (
 )
 
 func (u *UseCase) DeleteOld(ctx context.Context) error {
+	vhook.At("cleaner.deleteold.enter")
 	tx, err := u.txRepo.Oldest(ctx)
 	if errors.Is(err, fs_db.ErrTxNotFound) {
 		tx = model.Transaction{
